@@ -28,3 +28,60 @@ void h_rb_rotateRight(void)
 	rb_base_rotateRight(t, n);
 	FRGV_CANARY();
 }
+
+/* =============================================================================================
+ * Bounded whole-structure checks (class B): every red-black shape+colouring with up to N nodes is built
+ * concretely (generated builders, see unit.py/shapes.py), keys/intervals/priorities stay symbolic.
+ * The oracle below is the property statement itself, evaluated iteratively over at most RBMAX nodes. */
+#ifndef SH_N
+#define SH_N 0
+#define SH_K 0
+#endif
+#define RBMAX (SH_N + 2)      /* loop bounds of the oracle: the shape has SH_N nodes, one more may be inserted */
+size_t nondet_size_t(void);
+int nondet_int(void);
+#define HK(T, hook, p) (&((struct T *)(p))->hook)
+
+/* Checks a red-black tree with node type T / hook member `hook` against the expected sequence E[0..m-1]. */
+#define RB_CHECKER(NAME, T, hook) \
+static void NAME(void *root, struct T **E, size_t m, struct T *first) \
+{ \
+	__CPROVER_assert((root == 0) == (m == 0), "tree is empty iff nothing is contained"); \
+	__CPROVER_assert(first == (m ? E[0] : 0), "first() is the smallest element"); \
+	if (m == 0) return; \
+	__CPROVER_assert(HK(T, hook, root)->parent == 0 && HK(T, hook, root)->color == frg__redblack_color_type_black, "root has no parent and is black"); \
+	int bh = -1; \
+	for (size_t i = 0; i < RBMAX; i++) { \
+		if (i >= m) break; \
+		struct T *n = E[i]; struct rbhook *h = HK(T, hook, n); \
+		__CPROVER_assert(h->successor == (i + 1 < m ? (void *)E[i + 1] : (void *)0), "successor links follow the expected order"); \
+		__CPROVER_assert(h->predecessor == (i > 0 ? (void *)E[i - 1] : (void *)0), "predecessor is the inverse of successor"); \
+		__CPROVER_assert(h->color == frg__redblack_color_type_red || h->color == frg__redblack_color_type_black, "every contained node is red or black"); \
+		if (h->left) __CPROVER_assert(HK(T, hook, h->left)->parent == n, "left child's parent link"); \
+		if (h->right) __CPROVER_assert(HK(T, hook, h->right)->parent == n, "right child's parent link"); \
+		if (h->parent) __CPROVER_assert((HK(T, hook, h->parent)->left == n) != (HK(T, hook, h->parent)->right == n), "node is exactly one child of its parent"); \
+		else __CPROVER_assert(root == n, "only the root has no parent"); \
+		if (h->color == frg__redblack_color_type_red) \
+			__CPROVER_assert(h->parent != 0 && HK(T, hook, h->parent)->color == frg__redblack_color_type_black, "no red node has a red parent"); \
+		/* in-order successor computed from left/right/parent links only */ \
+		void *s; \
+		if (h->right) { s = h->right; for (int d = 0; d < RBMAX; d++) { if (!HK(T, hook, s)->left) break; s = HK(T, hook, s)->left; } } \
+		else { void *c = n; s = h->parent; for (int d = 0; d < RBMAX; d++) { if (!s || HK(T, hook, s)->left == c) break; c = s; s = HK(T, hook, s)->parent; } } \
+		__CPROVER_assert(s == (i + 1 < m ? (void *)E[i + 1] : (void *)0), "in-order walk over left/right links equals the successor list"); \
+		/* black height and depth */ \
+		int blacks = 0, depth = 0; void *a = n; \
+		for (int d = 0; d < RBMAX; d++) { if (!a) break; if (HK(T, hook, a)->color == frg__redblack_color_type_black) blacks++; depth++; a = HK(T, hook, a)->parent; } \
+		__CPROVER_assert(a == 0, "parent chain reaches the root"); \
+		if (!h->left || !h->right) { if (bh < 0) bh = blacks; __CPROVER_assert(blacks == bh, "every path to a leaf has the same number of black nodes"); } \
+		int lim = 0; for (size_t x = m + 1; x > 1; x >>= 1) lim += 2;   /* 2*floor(log2(m+1)) */ \
+		__CPROVER_assert(depth <= lim, "height is at most 2*log2(n+1)"); \
+	} \
+}
+RB_CHECKER(rb_check_node, frgv_node, hook)
+RB_CHECKER(rb_check_ival, frgv_ival, rb)
+
+#define HOOK_IS_RESET(h) ((h)->parent == 0 && (h)->left == 0 && (h)->right == 0 && (h)->predecessor == 0 && (h)->successor == 0)
+
+static struct frgv_node RBN[RBMAX];
+static struct frgv_ival IVN[RBMAX];
+static struct frgv_item PHN[RBMAX];
